@@ -325,11 +325,27 @@ func runCase(rt *rapid.T) {
 			if rapid.IntRange(0, 4).Draw(rt, "otherSession") == 0 {
 				cl, sess = other, "B"
 			}
+			concurrent := cl == main && rapid.IntRange(0, 3).Draw(rt, "concurrentPair") == 0
+			pairP := payloads[rapid.IntRange(0, len(payloads)-1).Draw(rt, "pairPayload")]
 			for _, h := range honest {
-				if rapid.IntRange(0, 3).Draw(rt, "skip") == 0 {
+				if !concurrent && rapid.IntRange(0, 3).Draw(rt, "skip") == 0 {
 					continue
 				}
 				p := payloads[rapid.IntRange(0, len(payloads)-1).Draw(rt, "rpayload")]
+				if concurrent {
+					p = pairP
+					// two requests for the same id with different payloads hit the member at the same
+					// time (two streams): at most one of them may be signed
+					q := payloads[(indexOfStr(payloads, p)+1)%len(payloads)]
+					f1 := cl.net.Inject(peers[faulty], peers[h], protoSig, &pb.BCastSigRequest{Id: id, Message: payloadAny(p)})
+					f2 := cl.net.Inject(peers[faulty], peers[h], protoSig, &pb.BCastSigRequest{Id: id, Message: payloadAny(q)})
+					cl.net.Take(cl.net.NPending() - 1)
+					cl.net.Take(cl.net.NPending() - 1)
+					cl.net.Deliver(f1)
+					cl.net.Deliver(f2)
+					reqs = append(reqs, pendingReq{f1, sess, id, p, h}, pendingReq{f2, sess, id, q, h})
+					continue
+				}
 				f := cl.net.Inject(peers[faulty], peers[h], protoSig, &pb.BCastSigRequest{Id: id, Message: payloadAny(p)})
 				if cl == other { // the side session has no scheduler of its own: deliver at once
 					other.net.Take(other.net.NPending() - 1)
@@ -396,6 +412,40 @@ func runCase(rt *rapid.T) {
 		}
 		synctest.Wait()
 		harvest()
+	}
+	// finisher: whenever the faulty member holds complete signature sets for two different payloads
+	// under one id, it completes the equivocation (one payload per receiver)
+	synctest.Wait()
+	harvest()
+	for _, id := range ids {
+		var complete []string
+		for _, p := range payloads {
+			full := true
+			for _, h := range honest {
+				if sigs[sigKey{"A", id, p, h}] == nil {
+					full = false
+				}
+			}
+			if full {
+				complete = append(complete, p)
+			}
+		}
+		if len(complete) >= 2 && len(honest) >= 2 {
+			for i, h := range honest {
+				p := complete[i%2]
+				list := make([][]byte, n)
+				for m := 0; m < n; m++ {
+					if m == faulty {
+						list[m] = ownSig(main.session, id, p)
+					} else {
+						list[m] = sigs[sigKey{"A", id, p, m}]
+					}
+				}
+				main.net.Inject(peers[faulty], peers[h], protoMsg, &pb.BCastMessage{Id: id, Message: payloadAny(p), Signatures: list})
+				sentMsgFrames++
+			}
+			trace = append(trace, "finish_equivocation("+id+")")
+		}
 	}
 	// drain what is left so that broadcasts can finish
 	for guard := 0; main.net.NPending() > 0 && guard < 500; guard++ {
@@ -543,4 +593,13 @@ func TestC13PositiveControl(t *testing.T) {
 		}
 	})
 	vstat.Case("positive-control", false, "positive_control")
+}
+
+func indexOfStr(list []string, x string) int {
+	for i, v := range list {
+		if v == x {
+			return i
+		}
+	}
+	return 0
 }
